@@ -8,6 +8,9 @@ CONSTANTS
   CtShape = "none"
   MaxSteps = 4
   Escaping = "asRequired"
+  Catalogue <- CatNone
+  MaxHist = 0
+  DecoderScope = "perIteration"
   CopyVariant = "copy"
 CONSTRAINT ExportC
 INVARIANT Snapshot
